@@ -61,6 +61,16 @@ CLAIMED = {
    note="Schedules are not explored and nothing runs under the race detector (a different technique). sync.Pool is trusted to be concurrency-safe.",
    tech="contract-based deductive verification: frame conditions (no global writes, writes confined to own footprint) over go/ssa",
    ref="DESIGN.md section 6 (C18)"),
+ "C19": dict(
+   text="Proof, through a ghost counter of heap bytes requested (incremented at every make, append growth, []byte<->string conversion, interface boxing, fmt.Errorf and escaping new in the functions under contract), that successful calls of the token, null, bool, integer and float readers and of the numeric/boolean Decode functions (including Decode on a null input) request zero bytes, modularly through their callees; growBytesSliceCapacity and unescapeUnicodeChar request nothing when the capacity suffices.",
+   note="Partial with respect to the property's list: SkipValue/SkipValueFast/Valid/HandleArrayValues/HandleObjectValues with a warmed Buffer and ReadStringBytes/UnescapeStringContent with spare capacity are NOT covered (their allocation sites are the capacity-growth sites only, see C20; the step 'warmed => guard false' needs a depth bound that is not built). internal/fp is assumed not to allocate. The compiler's escape analysis and the allocator are not modelled.",
+   tech="contract-based deductive verification: ghost resource counter in postconditions, path VCs over go/ssa, z3/cvc5",
+   ref="DESIGN.md section 6 (C19)"),
+ "C20": dict(
+   text="Per-call resource contracts on the ghost allocation counter, the compositional form of 'memory linear in input': scalar readers and Decode functions request a constant; in the four stack machines every allocation event requests at most 16*p+1024 bytes at position p; the string and generic-decoding functions are bounded in the bytes they consume. Three sites violate their contract on the pinned tree - genuine defects, replayed on the real code (/verif/findings/c20_findings_test.go: 7.1 GB for a 328 KB document, 37 MB per call on a reused reader, 49 MB for a 21 KB document) - and are recorded as known findings F2, F3, F4; any other failing obligation is a violation.",
+   note="Summation over calls (M-sum), amortisation of repeated stack growth (M-amort) and the growth policy of append (A-growth) are unchecked assumptions; handler allocations are not counted in the caller; []interface{} appends of the ValueReader are not modelled. The findings are not repaired because an honest fix is a redesign of the size-hint scheme (F2/F3) or changes the allocation strategy (F4).",
+   tech="contract-based deductive verification: ghost resource counter with per-call and per-event bounds, cut-point VCs over go/ssa, z3/cvc5; known-findings file",
+   ref="DESIGN.md sections 6 (C20) and 7"),
  "C12": dict(
    text="Proof for all ten Decode functions and nullOrBust, for every input and every prior target value: reader succeeds => target = reader's value, same offset, nil error; reader fails and ReadNull succeeds => target unchanged, offset of null, nil error; otherwise target unchanged and non-nil error. Stated over the readers' result functions, so it is exactly 'behaves as the corresponding reader'.",
    note="Relative to: each Read function is a deterministic function of the input bytes (result functions rok/rval/rp). DecodeString's stored value is not compared (strings are not scalars in the VC language).",
@@ -71,7 +81,7 @@ CLAIMED = {
 NOT_BUILT = "in reach per DESIGN.md section 6 but its check is not built yet - not claimed"
 NA = {
  "C03": NOT_BUILT, "C04": NOT_BUILT,
- "C08": NOT_BUILT, "C11": NOT_BUILT, "C19": NOT_BUILT, "C20": NOT_BUILT,
+ "C08": NOT_BUILT, "C11": NOT_BUILT,
  "C15": "needs a full functional contract of generic decoding for arbitrary prior reader state (incl. what sync.Pool.Get may return) and ownership of maps/slices reachable through interface values; not expressible in a quantifier-free bit-vector/array VC generator without inductive datatypes or separation logic (DESIGN.md section 6, C15)",
  "C17": "the functional content is utf8.DecodeRune / string([]rune) / string(rune) runtime intrinsics whose semantics would have to be assumed in exactly the form of the property, and the statement is sequence-valued and, for the slice/map helpers, an induction over interface-typed trees; no contract within reach decides it (DESIGN.md section 6, C17)",
 }
